@@ -129,12 +129,25 @@ func discharge(sc *Script, obls []*Obligation, outDir string, secs int, thorough
 			file := filepath.Join(outDir, fmt.Sprintf("o%04d.smt2", i))
 			// first with the bit-vector/Int conversions abstracted (fast, sound for proofs); only if
 			// that does not prove the goal, with their exact definitions (needed for real models)
+			// Stages: relevance-sliced queries first (sound: fewer hypotheses), then the full one; a
+			// "sat" answer is only believed for the full query with exact definitions.
 			var r solveResult
-			if len(sc.bridge) > 0 {
-				r = runSolvers(sc.query(o.Pos, o.Goal, false, true), file, secs, thorough)
+			abs := len(sc.bridge) > 0
+			short := secs
+			if short > 5 {
+				short = 5
+			}
+			for _, depth := range []int{1, 2} {
+				r = runSolvers(sc.query(o.Pos, o.Goal, false, abs, depth), file, short, false)
+				if r.status == "unsat" {
+					break
+				}
+			}
+			if r.status != "unsat" && abs {
+				r = runSolvers(sc.query(o.Pos, o.Goal, false, true, 0), file, secs, thorough)
 			}
 			if r.status != "unsat" {
-				r = runSolvers(sc.query(o.Pos, o.Goal, true, false), file, secs, thorough)
+				r = runSolvers(sc.query(o.Pos, o.Goal, true, false, 0), file, secs, thorough)
 			}
 			o.Status, o.Solver, o.Secs = r.status, r.solver, r.secs
 			if r.status == "unsat" {
